@@ -25,6 +25,10 @@ Definition qmean (l : list Q) : Q := Qred (qsum l / Qlen l).
 Definition qmin (l : list Q) : Q :=
   match l with [] => 0 | x :: t => fold_right Qmin x t end.
 
+(** numpy.max *)
+Definition qmax (l : list Q) : Q :=
+  match l with [] => 0 | x :: t => fold_right Qmax x t end.
+
 (** numpy.median: middle of the sorted values, mean of the two middles *)
 Fixpoint qinsert (x : Q) (l : list Q) : list Q :=
   match l with
